@@ -45,6 +45,7 @@ def new_interp():
     it.path_counter = {}
     it.overrides = {}
     it.class_home = {"MetaArray": ARR, "Index": ARR, "MetaStruct": "xobjects/struct.py", "Field": "xobjects/struct.py"}
+    it.overrides[(TU, "_to_slot_size")] = lambda i, st, f, a, k, n: ov_slot(i, st, f, a, k, n)
     return it
 
 
@@ -1421,3 +1422,6 @@ def vc_scalar_codec():
 
 
 group("scalar_codec", vc_scalar_codec, [(SCAL, "NumpyScalar._to_buffer"), (SCAL, "NumpyScalar._from_buffer")], ["C01", "C03", "C13", "C10"])
+
+
+from . import types2_vc  # noqa: E402,F401  (registers more groups)
